@@ -95,7 +95,7 @@ def run(ctx):
     with ctx.rule('R10.3', 'reuse: every removal from the map returns the id(s) to the freed set', floor=2) as r:
         reuse(ctx, r)
         rows = P.table(ctx, CSL + 'drain', ['self'])
-        want = ['std::collections::HashMap::iter(self.slots)', 'for (_, _) in std::collections::HashMap::iter(self.slots) {',
+        want = ['std::collections::HashMap::iter(self.slots)', 'for _ in std::collections::HashMap::iter(self.slots) {',
                 'indexmap::IndexSet::insert(self.freed_channel_ids, iter_item(std::collections::HashMap::iter(self.slots)).0)', '}', 'std::collections::HashMap::drain(self.slots)']
         r.check('drain:frees-all-ids', len(rows) == 1 and rows[0].effects == want, ctx.site(CSL + 'drain'), built=[x.row() for x in rows], expected=want)
         # nothing else removes from / inserts into the map
